@@ -65,6 +65,9 @@ def inject(args):
             if not w.model.user_of(k).is_oper:
                 w.act(k, {"verb": "OPER", "name": "root", "password": "rootpw"})
             w.act(k, {"verb": "KILL", "nick": nick, "comment": "enum"})
+            if nick in w.model.users:
+                # the killer could not become operator under this configuration (operator mask): no ending happened
+                return out
         elif how == "several":
             vs = live[:3] if len(live) >= 3 else live[:2]
             if len(vs) < 2:
